@@ -204,8 +204,18 @@ func (o *optimizer) optimizeBindCall() {
 // not a value, a func-typed variable may be reassigned before the literal is called
 func stableCallee(ctx astmatcher.Ctx, lit *ast.FuncLit) bool {
 	call := lit.Body.List[0].(*ast.ReturnStmt).Results[0].(*ast.CallExpr)
-	if _, isFunc := ctx.Callee(call).(*types.Func); !isFunc {
+	fn, isFunc := ctx.Callee(call).(*types.Func)
+	if !isFunc {
 		return false
+	}
+	// a generic function is a value only when it is explicitly instantiated:
+	// func(x int) int { return id(x) } cannot become `id`
+	if sig, ok := fn.Type().(*types.Signature); ok && sig.TypeParams().Len() > 0 {
+		switch call.Fun.(type) {
+		case *ast.IndexExpr, *ast.IndexListExpr:
+		default:
+			return false
+		}
 	}
 	litTy, funTy := ctx.TypeOf(lit), ctx.TypeOf(call.Fun)
 	return litTy != nil && funTy != nil && types.Identical(litTy, funTy)
